@@ -160,6 +160,14 @@ def examine(chk, name, start, prods, tags, tier, stats):
             case.conflicts = True
             return case
         stats["conflict_free"] += 1
+        if not oracle.reduced:
+            # since the repair of F10 a nonterminal that derives nothing is reported with the conflicts
+            stats["unproductive_not_reported"] = stats.get("unproductive_not_reported", 0) + 1
+            if not too_many(chk):
+                chk.violation("input", {"input": gtext, "observed": "no conflicts / diagnostics reported",
+                                        "expected": "the unproductive nonterminal(s) %s reported" % sorted(
+                                            oracle.nonterminals - oracle.productive)}, key=F10_KEY)
+            return None
         for t in tags:
             stats["tags_conflict_free"][t] = stats["tags_conflict_free"].get(t, 0) + 1
         amb = oracle.ambiguous_witness(5 if tier == "quick" else 6)
